@@ -48,6 +48,7 @@ func c04Menu() []sim.TxSpec {
 }
 
 type c04Case struct {
+	Shared json.RawMessage `json:"shared,omitempty"` // a case of the shared history families (all eight transaction types, restarts), judged for nonces only
 	EVMProg []int `json:"evmProg,omitempty"` // EVM-interplay case: a C17 program run in C17's family 2, judged for nonces only
 	Seq     []int `json:"seq"`
 	Cut     int   `json:"cut"` // bit i set = new block after element i
@@ -57,6 +58,22 @@ type c04Case struct {
 type c04 struct {
 	cases []c04Case
 	menu  []sim.TxSpec
+	mc    *modelCheck
+}
+
+// c04Shared: the shared history families (dense history in 3 genesis variants, small-stake history; every single
+// deviation) plus a governance/unstaking history, each also with one restart: the committed nonce of EVERY account is
+// compared with the model after every block - for all eight transaction types, senders that are and are not the proposer.
+func c04Shared() *modelCheck {
+	fams := append(sharedFamilies(), family{Name: "nonces/governance-and-unstaking", Base: func() sim.History {
+		h := c15History(genesis3())
+		h.Blocks[2].Txs = []sim.TxSpec{prop("V1", 1, 2, 1, `{"gasPrice":"4"}`, `{"gasPrice":"5"}`), stk("U0", "V2", "2R")}
+		h.Blocks[3].Txs = []sim.TxSpec{vote("V1", 0, 0), vote("V2", 0, 0), unstk("U0", "U0", "V2", 0)}
+		h.Blocks[4].Txs = []sim.TxSpec{vote("V1", 0, 1), vote("V0", 0, 1), wdr("V2", "1"), unstk("V3", "V3", "V3", 0)}
+		return h
+	}, Menu: c15Menu()[:12], WithEnv: true, NAppend: 1, MaxD: 1, MaxDTh: 2})
+	fams[len(fams)-1].Restarts = []int64{4, 6}
+	return &modelCheck{id: "C04", owners: map[string]bool{"C04": true}, families: fams}
 }
 
 func init() { engine.Register("C04", func() engine.Check { return &c04{} }) }
@@ -64,7 +81,7 @@ func init() { engine.Register("C04", func() engine.Check { return &c04{} }) }
 func (c *c04) ID() string { return "C04" }
 func (c *c04) Meta() engine.Meta {
 	m := modelMeta("exhaustive enumeration of delivery sequences of concrete signed transactions (with repetition, every block cut) on the real application, reference model + at-most-once oracle",
-		"C04: two senders, 14 CONCRETE signed transactions (fixed nonce and time stamp, hence identical bytes whenever delivered): transfers with nonce 0/1/2, a second sender's transfers, a contract deployment with nonce 0/1, calls of the deployed contract with nonce 1/2, a plain transfer to the contract address, setdoc with nonce 0/1, setdoc ADDRESSED to the contract account with nonce 1/2; ALL sequences with repetition of length 3 (quick) / 4 (thorough), each cut into blocks at every possible place, after a 2-block warm-up; plus EVM-interplay cases: every gadget program up to length 2 of C17's alphabet in a history where an account takes part in a contract transaction, then sends native transactions (one of them a replay), then is first touched inside a reverting inner call frame. "+
+		"C04: two senders, 14 CONCRETE signed transactions (fixed nonce and time stamp, hence identical bytes whenever delivered): transfers with nonce 0/1/2, a second sender's transfers, a contract deployment with nonce 0/1, calls of the deployed contract with nonce 1/2, a plain transfer to the contract address, setdoc with nonce 0/1, setdoc ADDRESSED to the contract account with nonce 1/2; ALL sequences with repetition of length 3 (quick) / 4 (thorough), each cut into blocks at every possible place, after a 2-block warm-up; plus EVM-interplay cases: every gadget program up to length 2 of C17's alphabet in a history where an account takes part in a contract transaction, then sends native transactions (one of them a replay), then is first touched inside a reverting inner call frame; plus the shared history families and a governance/unstaking history (all eight transaction types by senders that are and are not the block proposer, every single deviation; the governance/unstaking history also with one restart after height 4 or 6). "+
 			"Oracle: success => tx nonce == account nonce before (model); after success nonce +1, after failure unchanged (state comparison at every height, native and EVM write-back paths alike); every signed transaction (by its hash) succeeds at most once over the whole history.")
 	m.LevelName = "length of the delivery sequence"
 	return m
@@ -76,6 +93,13 @@ func (c *c04) Prepare(tier string, seed int64) error {
 	L := 3
 	if tier == "thorough" {
 		L = 4
+	}
+	c.mc = c04Shared()
+	if err := c.mc.Prepare(tier, seed); err != nil {
+		return err
+	}
+	for i := 0; i < c.mc.NumCases(); i++ {
+		c.cases = append(c.cases, c04Case{Shared: c.mc.Desc(i), Lv: 1})
 	}
 	n := len(c.menu)
 	for l := 1; l <= L; l++ {
@@ -121,6 +145,19 @@ func (c *c04) RunDesc(desc json.RawMessage) engine.Result {
 	_ = json.Unmarshal(desc, &cs)
 	if c.menu == nil {
 		c.menu = c04Menu()
+	}
+	if cs.Shared != nil {
+		if c.mc == nil {
+			c.mc = c04Shared()
+			c.mc.build()
+		}
+		res := c.mc.RunDesc(cs.Shared)
+		for i := range res.Violations {
+			res.Violations[i].Case = desc
+		}
+		res.Count("shared_family_histories", 1)
+		res.Sample = nil
+		return res
 	}
 	if len(cs.EVMProg) > 0 {
 		res, findings, _, names, mr := c17Run(c17Case{Prog: cs.EVMProg, Family: 3})
